@@ -42,8 +42,9 @@ func (k Keeper) CalculateBaseFee(ctx sdk.Context) *big.Int {
 
 	gasLimit := new(big.Int).SetUint64(math.MaxUint64)
 
-	// NOTE: a MaxGas equal to -1 means that block gas is unlimited
-	if consParams != nil && consParams.Block != nil && consParams.Block.MaxGas > -1 {
+	// NOTE: a MaxGas equal to -1 means that block gas is unlimited, and so does a MaxGas of 0:
+	// baseapp runs such blocks with an infinite block gas meter
+	if consParams != nil && consParams.Block != nil && consParams.Block.MaxGas > 0 {
 		gasLimit = big.NewInt(consParams.Block.MaxGas)
 	}
 
